@@ -131,6 +131,42 @@ theorem C06_reduction2loop_sound (idx tmp : Nat) (r : RedIn) (lead : Sec) (rest 
     AgreeOn (fun y => y ≠ idx ∧ y ≠ tmp ∧ y ≠ r.hole) (exec s σ) (execRedOrig r lead σ) :=
   reduction2loop_sound_aux idx tmp r lead rest s hlead ht hf σ
 
+
+/-- **both accumulator modes**: initialisation + loop leave the value of the reduction in ANY accumulator
+`acc` — the target itself (in place) or the temporary — under the side condition that the accumulator's
+symbol is read neither by the reduced expression, nor by the mask, nor by its own index expressions.
+`transRed` accumulates in place exactly when `RedIn.increment = false`, which implies this condition for
+`acc = tgt`; otherwise it uses the fresh temporary, for which the condition is freshness. -/
+theorem C06_reduction_accumulator_sound (idx : Nat) (r : RedIn) (lead : Sec) (acc : Tgt) (σ : Store)
+    (hlead : lead ∈ r.expr.secs)
+    (hstride : ∀ s ∈ r.expr.secs, s.st = lead.st) (hstrideM : ∀ s ∈ maskSecs r.mask, s.st = lead.st)
+    (hacc : acc.sym ∉ r.expr.allvars ++ maskVars r.mask ++ acc.ivars) (hai : acc.sym ≠ idx)
+    (hidx : idx ∉ r.expr.allvars ++ maskVars r.mask ++ acc.ivars) :
+    AgreeOn (fun y => y ≠ idx)
+      (exec (.seq (acc.assign (r.kind.init r.huge)) (redLoop idx r lead acc)) σ)
+      (σ.set (acc.loc σ) (redVal r lead σ)) :=
+  red_core idx r lead acc σ hlead hstride hstrideM hacc hai hidx
+
+/-- `a(1) = SUM(a(1:3))` (array 0): the target is an element of the reduced array -/
+def selfWitness : RedIn :=
+  ⟨.sum, .sec ⟨0, .r1, .lit 1, .lit 3, .lit 1⟩, none, false, .e1 0 (.lit 1), 9, .var 9, 1000⟩
+
+def selfStore : Store := storeOf [((0, 1, 0), 5), ((0, 2, 0), 7), ((0, 3, 0), 11)]
+
+/-- the side condition is necessary: accumulating `a(1) = SUM(a(1:3))` in place overwrites `a(1)` with the
+initial value before the loop reads it (18 instead of 23) … -/
+theorem C06_reduction_inplace_counterexample :
+    (exec (.seq (selfWitness.tgt.assign (selfWitness.kind.init selfWitness.huge))
+        (redLoop 7 selfWitness ⟨0, .r1, .lit 1, .lit 3, .lit 1⟩ selfWitness.tgt)) selfStore) (0, 1, 0)
+      ≠ redVal selfWitness ⟨0, .r1, .lit 1, .lit 3, .lit 1⟩ selfStore := by decide
+
+/-- … which is why the (symbol-based) rule of the real code selects the temporary here, and the result is right -/
+theorem C06_reduction_self_target_uses_temporary :
+    selfWitness.increment = true ∧
+    (match transRed 7 8 selfWitness with
+     | .ok s => (exec s selfStore) (0, 1, 0)
+     | .error _ => 0) = 23 := by decide
+
 /-- DIM arguments are refused -/
 theorem C06_reduction_dim_refused (idx tmp : Nat) (r : RedIn) (h : r.dim = true) :
     transRed idx tmp r = .error .dim := by simp [transRed, h]
